@@ -1,5 +1,5 @@
 """Mode tables (shared by C02 R02.6, C08 R08.2, C15 R15.3): decision tables of the OpMode accessors."""
-from ..prov import get_an, pp, bytes_of
+from ..prov import get_an, pp, bytes_of, fold_const
 from .. import booldec
 from .common import impl_bodies, where, base_trait
 
@@ -28,7 +28,11 @@ def field_index_of_type(adt, variant, ty_prefix):
 def table_for(rep, rule, a, adt):
     fn = a.body.key
     try:
-        return booldec.variant_table(a, variants_of(adt), lambda s: s == ('load', ('param', 1), ()))
+        tab = booldec.variant_table(a, variants_of(adt), lambda s: s == ('load', ('param', 1), ()))
+        if a.body.key.endswith('::mode_id'):
+            # `u8::from(auth.is_some()) << 1 | u8::from(psk.is_some())` over per-variant known Options is a number
+            tab = {v: [(fold_const(rt, 'u8'), site) for rt, site in rows] for v, rows in tab.items()}
+        return tab
     except booldec.Undecidable as e:
         rep.undecided(rule, fn, 'decision-table', str(e), 'a match on the mode enum only', where(a))
         return None
